@@ -101,6 +101,7 @@ func runC11(r *Report, p *Program) {
 	}
 	c11R6(h)
 	c11R7(h)
+	c11R8(h)
 	// R3: validate and start agree
 	r.Rule("R3", "validate and start agree (E10 traces of executeDirectives, validating and not): the same setup calls are made in the same order, and justValidate only switches the parsing callbacks off; casketmain's -validate path and Start both go through ValidateAndExecuteDirectives", 3)
 	{
